@@ -260,11 +260,21 @@ def collapse_mapping_family(ctx, tier):
                             ctx.v("C17", "collapsed:precedence-modified", opd, "the caller's precedence list changed to %r" % (p_arg,))
 
 
+def parts(prop):
+    """Three independent families as functions (res, tier) -> (violations of `prop`, counters)."""
+    def mk(fn, label):
+        def run(res, tier):
+            ctx = Ctx()
+            fn(ctx, tier)
+            return [v for v in ctx.viol if v["property"] == prop], {label: ctx.n}
+        return run
+    return [mk(repr_family, "representation_cases_of_entry_updates"), mk(collapse_mapping_family, "collapsed_with_mapping_cases"), mk(big_family, "wide_and_tall_index_operations")]
+
+
 def family(res, tier, prop):
-    ctx = Ctx()
-    repr_family(ctx, tier)
-    collapse_mapping_family(ctx, tier)
-    n1 = ctx.n
-    big_family(ctx, tier)
-    viol = [v for v in ctx.viol if v["property"] == prop]
-    return viol, {"representation_cases_of_entry_updates": n1, "wide_and_tall_index_operations": ctx.n - n1}
+    viol, cov = [], {}
+    for fn in parts(prop):
+        v, c = fn(res, tier)
+        viol.extend(v)
+        cov.update(c)
+    return viol, cov
